@@ -161,7 +161,9 @@ def gen_cases(ctx):
       items = G.make_items(rng, shape, nrec)
       vals = sorted({rng.randrange(0, 9) for _ in range(rng.randrange(1, 4))})
       fail = {'kind': rng.choice(['ValueError', 'ValueError', 'TypeError', 'KeyError', 'IndexError']), 'values': vals}
-      yield c08.mk_case(G.gen_chain(rng, shape, 6, fail=fail), items, ignore=rng.random() < 0.6, tag='random')
+      specs = G.gen_chain(rng, shape, 6, fail=fail)
+      if specs:
+        yield c08.mk_case(specs, items, ignore=rng.random() < 0.6, tag='random')
   yield from counted(rand(400 if quick else 10000), 'random')
 
   def threaded(n):
